@@ -57,9 +57,9 @@ static const double K26 = 67108864.0;
 
 template<typename S> static Trial observe(const S& s, uint64_t n, const std::string& fam, const std::string& ctx) {
   Trial t;
-  t.c = read_chain(s);
+  t.c = read_chain_c(s);     // estimate, composite estimate and the six bounds in a random order
   check_chain(t.c, fam, ctx);
-  t.aux = s.get_composite_estimate();
+  t.aux = t.c.comp;
   t.exact_class = s.get_current_mode() != HLL;
   if (t.exact_class) {
     const Window w = small_range_window(n, K26);
@@ -75,6 +75,7 @@ void run_case(uint64_t idx, Rng& r) {
   const std::string fam = FAM_NAME[cell.fam];
   const uint64_t n = cell.n;
   const uint64_t base = r.next();
+  seed_order(r);
   describe("mc family=" + fam + " lg_k=" + std::to_string(cell.lg_k) + " n=" + std::to_string(n) + " (" + std::to_string(MULTS[cell.mi].num) + "/" +
            std::to_string(MULTS[cell.mi].den) + " k) trials=" + std::to_string(cell.trials) + " keybase=" + std::to_string(base));
   std::vector<Trial> tr; tr.reserve(cell.trials);
@@ -115,10 +116,11 @@ void run_case(uint64_t idx, Rng& r) {
       else { sketch(0, n * 2 / 5, t); between(); raw(n * 3 / 10, n * 7 / 10); between(); sketch(n * 3 / 5, n, t + 1); }
       // the union object itself is read out (get_estimate / bounds of hll_union), then compared with its result
       tr.push_back(observe(u, n, fam, ctx));
+      if (order != 0 && u.get_current_mode() == HLL) count_first_after_merge(tr.back().c);
       const hll_sketch res = u.get_result(TYPES[(t / 9) % 3]);
-      const Chain rc = read_chain(res);
-      VF_CHECK(rc.est == tr.back().c.est && rc.lb[1] == tr.back().c.lb[1] && rc.ub[3] == tr.back().c.ub[3], fam + "|union-object-vs-result|estimate-or-bounds-differ",
-               ctx + " union: " + tr.back().c.to_string() + " result: " + rc.to_string());
+      const Chain rc = read_chain_c(res);
+      VF_CHECK(rc.unstable.empty() && same_chain(rc, tr.back().c), fam + "|union-object-vs-result|estimate-or-bounds-differ",
+               ctx + " union: " + tr.back().c.to_string() + " result: " + rc.to_string() + rc.unstable);
       if (u.get_current_mode() == HLL && u.is_out_of_order_flag()) any_ooo_union = true;
     } else {
       // A gets keys [0, 0.6n), B gets keys [0.4n, n): 20% overlap; target types rotate with the trial
@@ -130,12 +132,15 @@ void run_case(uint64_t idx, Rng& r) {
       for (uint64_t i = b_begin; i < n; ++i) b.update(key(i));
       hll_union u(cell.lg_k);
       if (mixed && (t & 1)) { u.update(b); u.update(a); } else { u.update(a); u.update(b); }
+      // the union object is read before or after get_result() (random), and must report what its result reports
+      const bool result_first = order_next() & 1;
+      Trial tu;
+      if (!result_first) { tu = observe(u, n, fam, ctx); if (u.get_current_mode() == HLL) count_first_after_merge(tu.c); }
       const hll_sketch res = u.get_result(TYPES[(t / 9) % 3]);
       tr.push_back(observe(res, n, fam, ctx));
-      // the union object itself must report what its result reports
-      const Chain uc = read_chain(u);
-      VF_CHECK(uc.est == tr.back().c.est && uc.lb[1] == tr.back().c.lb[1] && uc.ub[3] == tr.back().c.ub[3], fam + "|union-object-vs-result|estimate-or-bounds-differ",
-               ctx + " union: " + uc.to_string() + " result: " + tr.back().c.to_string());
+      if (result_first) tu = observe(u, n, fam, ctx);
+      VF_CHECK(same_chain(tu.c, tr.back().c), fam + "|union-object-vs-result|estimate-or-bounds-differ",
+               ctx + " union: " + tu.c.to_string() + " result: " + tr.back().c.to_string());
       if (res.get_current_mode() == HLL && res.is_out_of_order_flag()) any_ooo_union = true;
     }
   }
